@@ -462,7 +462,7 @@ def byname(ctx, tmpdir):
         fh.write(BYNAME_SCRIPT)
     outp = os.path.join(tmpdir, "byname.json")
     env = dict(os.environ, PYTHONPATH=pkg, VERIF_REPO=pkg, PANOPTICA_CITATION_REMINDER="false")
-    p = subprocess.run([harness.PY, "-B", script, outp], env=env, capture_output=True, text=True, timeout=300, cwd=tmpdir)
+    p = subprocess.run([harness.PY, "-B"] + harness.own_flags() + [script, outp], env=env, capture_output=True, text=True, timeout=300, cwd=tmpdir)
     ctx.count("evaluations")
     if not os.path.exists(outp):
         ctx.errors.append({"case": "byname", "tb": "by-name script failed: " + p.stderr[-1500:]})
